@@ -99,6 +99,32 @@ def scan_py(argv):
     return [list(out[0]), list(out[1]), list(out[2])]
 
 
+# ------------------------------------------------------------------ POSIX-shell renderings (Spec/C11sh.v, in Python)
+WS = " \t\r\n"
+
+
+def render_seg(sg):
+    k, x = sg
+    if k == "P":
+        return x
+    if k == "E":
+        return "\\" + x
+    if k == "S":
+        return "'" + x + "'"
+    return '"' + "".join(c if kk == "P" else "\\" + c for kk, c in x) + '"'
+
+
+def value_seg(sg):
+    k, x = sg
+    if k in ("P", "E", "S"):
+        return x
+    return "".join(c if kk in ("P", "E") else "\\" + c for kk, c in x)
+
+
+def render_cmd(case):
+    return case["lead"] + "".join("".join(render_seg(sg) for sg in w) + sep for w, sep in case["words"])
+
+
 # ------------------------------------------------------------------ finding classes (narrow, on tokens)
 def is_negnum(t):
     import re
@@ -173,7 +199,10 @@ class C11(Check):
             "(I vs S only), "
             "and raw strings for shlex.split (exhaustive over a 7-letter alphabet up to length 4/6 + random).  Every vector is "
             "also rendered with shlex.join and read back through CompileCommand(command=...) and config.load_database.  "
-            "Non-trivial = at least one recognised option AND at least one other argument")
+            "POSIX-shell renderings of random vectors (plain, backslash-escaped, single- and double-quoted segments, any white "
+            "space) must be split back into the vector.  "
+            "Non-trivial = at least one recognised option AND at least one other argument (renderings: two or more words and a "
+            "quoted or escaped segment)")
     assumptions = [
         "CPython 3.12.1 argparse.parse_known_args and shlex.split/quote behave as modelled (sampled by the correspondence, not proved)",
         "the compiler has no parser options of its own (an unrecognised compiler name): compiler-specific options, modes and passes are C12",
@@ -183,7 +212,7 @@ class C11(Check):
     def __init__(self, tier, seed):
         super().__init__(tier, seed)
         self._root = None
-        self._hist = {"kind": {}, "argv_len": {}, "outcome": {}, "outcome_malformed": {}, "classes": {}, "split_outcome": {},
+        self._hist = {"kind": {}, "argv_len": {}, "outcome": {}, "outcome_malformed": {}, "classes": {}, "split_outcome": {}, "render_outcome": {},
                       "real_compiler": {}, "outcome_real_compiler": {}}
         self._seen = set()
         self._in_safe = {}
@@ -302,6 +331,38 @@ class C11(Check):
                 out.append(argv_case([[t]], False, False))
                 out.append(argv_case([[t], ["x"]], False, False))
                 out.append(argv_case([["-DA"], [t], ["-IB"]], False, False))
+        # 5c. POSIX-shell renderings of argument vectors (plain / backslash-escaped / '...' / "..." segments, any white
+        #     space between words): shlex.split must give back the vector (I vs M vs S)
+        chars = "ab-=DI /.'\"\\\t\n$`;"
+
+        def rnd_seg():
+            r = self.rng.random()
+            if r < 0.4:
+                return ["P", self.rng.choice([c for c in chars if c not in WS + "'\"\\"])]
+            if r < 0.6:
+                return ["E", self.rng.choice(chars)]
+            if r < 0.8:
+                return ["S", "".join(self.rng.choice([c for c in chars if c != "'"]) for _ in range(self.rng.randint(0, 4)))]
+            items = []
+            for _ in range(self.rng.randint(0, 4)):
+                c = self.rng.choice(chars)
+                q = self.rng.random()
+                if c in '"\\':
+                    items.append(["E", c])
+                else:
+                    items.append(["B", c] if q < 0.25 else ["P", c])
+            return ["D", items]
+        for i in range(1500 if quick else 40000):
+            n = self.rng.randint(0, 5)
+            words = []
+            for j in range(n):
+                w = [rnd_seg() for _ in range(self.rng.randint(1, 5))]
+                sep = "".join(self.rng.choice(WS) for _ in range(self.rng.randint(1, 2)))
+                if j == n - 1 and self.rng.random() < 0.5:
+                    sep = ""
+                words.append([w, sep])
+            lead = "".join(self.rng.choice(WS) for _ in range(self.rng.randint(0, 2))) if self.rng.random() < 0.3 else ""
+            out.append({"kind": "render", "lead": lead, "words": words})
         # 6. raw command strings for shlex.split
         alpha = "a '\"\\\t-"
         lim3 = 4 if quick else 6
@@ -321,6 +382,8 @@ class C11(Check):
         if case["kind"] in ("argv", "cc"):
             return enc(["argv", [t.encode("latin-1") for t in self.argv(case)]])
         # (bytes are always hex-encoded: common.enc would pass "a\n" through as a bare word)
+        if case["kind"] == "render":
+            return enc(["split", render_cmd(case).encode("latin-1")])
         return enc(["split", case["s"].encode("latin-1")])
 
     # ------------------------------------------------------------ implementation
@@ -435,9 +498,9 @@ class C11(Check):
 
         def inc(d, key):
             h[d][key] = h[d].get(key, 0) + 1
-        if case["kind"] == "split":
-            inc("kind", "split")
-            inc("split_outcome", ia[0] if ia[0] == "Ok" else ia[1])
+        if case["kind"] in ("split", "render"):
+            inc("kind", case["kind"])
+            inc("split_outcome" if case["kind"] == "split" else "render_outcome", ia[0] if ia[0] == "Ok" else ia[1])
             return
         if case["kind"] == "cc":
             inc("kind", "real-compiler")
@@ -454,8 +517,8 @@ class C11(Check):
             inc("classes", cls)
 
     def impl(self, case):
-        if case["kind"] == "split":
-            r = self._split(case["s"])
+        if case["kind"] in ("split", "render"):
+            r = self._split(case["s"] if case["kind"] == "split" else render_cmd(case))
             self._count(case, r)
             return r
         argv = self.argv(case)
@@ -472,7 +535,7 @@ class C11(Check):
     def model_view(self, case, ans):
         if case["kind"] == "cc":
             return None            # compiler-specific tables are not modelled here (C12)
-        if case["kind"] == "split":
+        if case["kind"] in ("split", "render"):
             return ans
         res, _s, cmd, sp, _safe = ans
         res = list(res)
@@ -486,6 +549,8 @@ class C11(Check):
     def spec(self, case, ans):
         if case["kind"] == "split":
             return None
+        if case["kind"] == "render":
+            return ["Ok", ["".join(value_seg(sg) for sg in w) for w, _sep in case["words"]]]
         argv = self.argv(case)
         py = scan_py(argv)
         if ans is not None and ans not in ("PARSEERROR", "BADCASE", "UNKNOWN"):
@@ -505,16 +570,18 @@ class C11(Check):
         return [["Ok"] + lists, ["Ok", argv], "same" if case.get("db") else "n/a"]
 
     def impl_view_for_spec(self, case, ia):
-        if case["kind"] == "split":
+        if case["kind"] in ("split", "render"):
             return ia
         if case["kind"] == "cc":
             return [ia[0][:4]]
         return [ia[0][:4], ia[2], ia[3]]
 
     def in_domain(self, case, spec_ans):
-        return case["kind"] in ("argv", "cc") and bool(case.get("dom"))
+        return case["kind"] == "render" or (case["kind"] in ("argv", "cc") and bool(case.get("dom")))
 
     def nontrivial(self, case, ia):
+        if case["kind"] == "render":
+            return len(case["words"]) >= 2 and any(sg[0] != "P" for w, _ in case["words"] for sg in w)
         if case["kind"] not in ("argv", "cc"):
             return False
         s = scan_py(self.argv(case))
